@@ -7,12 +7,19 @@ import tree_streams as TS
 MODULE = "Props.C18"
 THEOREMS = ["C18_childIndex_bit", "removeDim_testBit", "C18_child_ranges", "C18_routed_row_in_child", "C18_split_conditions",
             "C18_over_threshold_entities_generic", "C18_over_threshold_entities_unique", "C18_not_stub_projection",
-            "C18_expand_is_hull", "C18_outlier_keeps_ranges"]
-PARTIAL = ["the global invariant (rows partitioned, ranges nested, split licences) for whole insertion histories is NOT yet a Lean theorem: "
-           "proved are the step facts it follows from; the invariant itself is evaluated on every real tree of every run (oracle) and the "
-           "executable model reproduces the real trees bit for bit (S-tree)",
-           "clause 'tight range = hull of the in-range rows': holds in 1-dim trees; in >= 2-dim trees rows beyond a column's final root "
-           "range go through ordinary insertion and widen the tight range (known finding C18 hull-dims>=2-row-beyond-final-root-range)"]
+            "C18_expand_is_hull", "C18_outlier_keeps_ranges",
+            # the global invariant, by induction over whole insertion histories (SdxProofs/TreeInv.lean)
+            "C18_add_row_invariant", "C18_tree_invariant", "C18_rows_partitioned", "C18_children_global",
+            "C18_rows_inside_global", "C18_tight_range_global", "C18_branch_licences_global",
+            "C18_branch_entities_generic", "C18_branch_entities_unique"]
+PARTIAL = ["the global invariant is proved for the trees `add_row` builds (every column combination before the 1-dim push-down); the "
+           "push-down itself (descending to a child and folding the other half's rows into the edge leaf) is covered by step theorems "
+           "(C18_outlier_keeps_ranges) and by the oracle on every real tree, not yet by the global induction",
+           "the theorem is conditional on the build finishing (`buildRows = some t`): the model's recursion budget stands for "
+           "Python's recursion limit (known finding C07 recursion-depth-add_row)",
+           "clause 'tight range = hull of the in-range rows': proved as 'hull of all rows the node holds'; in >= 2-dim trees rows beyond a "
+           "column's final root range go through ordinary insertion and widen the tight range (known finding C18 "
+           "hull-dims>=2-row-beyond-final-root-range)"]
 ASSUMPTIONS = []
 TRUSTED = ["stream S-tree generators (tree_streams.gen_table)"]
 
